@@ -224,6 +224,14 @@ def tables(prog, chk):
                 ok = ok and {"Add", "Div"} <= {x["op"] for x in hirq.exprs(arm, "Binary")}
             if name in ("rx", "ry"):
                 ok = ok and "Div" in {x["op"] for x in hirq.exprs(arm, "Binary")}
+        if not ok:
+            # values hoisted into locals before the match (`let abs_width = ..`) or computed by helpers of the box
+            # (`self.midpoint().0`): what the arm reads is not written in the arm; A17.algebra decides the value
+            locals_ = [p for p in hirq.exprs(arm, "Path") if (p.get("res") or {}).get("local") not in (None, "self")]
+            helpers_ = [m for m in hirq.exprs(arm, "MethodCall") if m["name"] not in ("abs", "max", "min") and (m.get("def") or "").startswith("svgdx::")]
+            if locals_ or helpers_ or not got:
+                chk.undecided("A15.selection-tables", f"scalar:{name}", ss_fn.where(), f"the arm for `{name}` reads through locals / helper methods ({got} seen directly); its value is decided by the evaluated algebra")
+                continue
         chk.ob(ok, "A15.selection-tables", f"scalar:{name}", ss_fn.where(), f"scalar `{name}` reads {ref}", f"scalar `{name}` -> {v} reads {got} (expected {ref})")
     # scalar -> location
     fl = prog.hir[prog.body("<svgdx::position::LocSpec as std::convert::From<svgdx::position::ScalarSpec>>::from").id]
